@@ -929,6 +929,9 @@ with SqlImpl.impl_store.impl_manager as impl:
     @impl(ops.shift)
     def _shift(x, by, empty_value=None):
         # `by` and `empty_value` are constant parameters and arrive as python values
+        if isinstance(empty_value, float) and isinstance(x.type, sqa.Integer):
+            # the common type of an integer column and a float fill value is a float
+            x = sqa.cast(x, sqa.Double())
         fill_type = None if isinstance(x.type, sqa.types.NullType) else x.type
         fill = [] if empty_value is None else [sqa.literal(empty_value, type_=fill_type, literal_execute=True)]
         if by >= 0:
